@@ -77,7 +77,7 @@ func expect(p *Pool, o Op) Expect {
 		}
 		var ex Expect
 		for _, m := range i.SentMessages() {
-			if m.SizeByte() > 8 {
+			if b.Type() != acme.BusTypeCAN2A || m.SizeByte() > 8 { // the real limit of the bus: CAN 2.0A takes 8 bytes, any other type nothing
 				ex.Refusals = append(ex.Refusals, "TooBig MessageSize")
 			} else if m.HasStaticCANID() && busHasStatic(b, m.GetCANID(), nil) {
 				ex.Refusals = append(ex.Refusals, "Duplicated CANID")
@@ -138,7 +138,7 @@ func expect(p *Pool, o Op) Expect {
 				return one("Duplicated Name")
 			}
 		}
-		if i.ParentBus() != nil && m.SizeByte() > 8 {
+		if pb := i.ParentBus(); pb != nil && (pb.Type() != acme.BusTypeCAN2A || m.SizeByte() > 8) {
 			return one("TooBig MessageSize")
 		}
 		if m.HasStaticCANID() {
